@@ -1157,13 +1157,21 @@ impl Task {
             return result;
         }
 
+        // a name the task does not hold itself is looked up like the globals of a script
+        // (`vars`): the outermost enclosing task that holds it wins. Copies further in (a step
+        // or branch starts with a copy of its predecessor's outputs) are only kept current
+        // along the writer's own ancestors, a copy in a sibling subtree is not
+        let mut refs = Vec::new();
         let mut parent = self.parent();
         while let Some(task) = parent {
+            refs.push(task.clone());
+            parent = task.parent();
+        }
+        for task in refs.iter().rev() {
             let result = task.with_data(|data| data.get::<T>(name));
             if result.is_some() {
                 return result;
             }
-            parent = task.parent();
         }
         None
     }
